@@ -2,7 +2,8 @@
    harness fed to the real Transaction API / parsers and compares with what was observed.
    Go map iteration order is an oracle: where the outcome can depend on it (argument limit hit,
    JSON keys that collide after case folding) the check is "some visiting order of the parsed
-   map explains the observation" (all permutations for up to 6 groups). *)
+   map explains the observation" (all permutations for up to 6 groups of arguments; for JSON one
+   survivor per colliding bucket). *)
 From Coq Require Import String.
 From Verif Require Import Base Decode.
 Open Scope N_scope.
@@ -47,6 +48,18 @@ Fixpoint perms {A} (l : list A) : list (list A) :=
   end.
 Definition orders {A} (l : list A) : list (list A) :=
   if (length l <=? 6)%nat then perms l else [l; rev l].
+
+(* visiting orders of the JSON res map that can make a difference: SetIndex(key, 0, v) keeps,
+   per folded key, the entry visited last; so it is enough to choose one survivor per bucket and
+   visit the survivors last (product of the bucket sizes instead of n! orders) *)
+Fixpoint choices {A} (groups : list (list A)) : list (list A) :=
+  match groups with
+  | [] => [[]]
+  | g :: r => flat_map (fun w => map (cons w) (choices r)) g
+  end.
+Definition json_orders (res : list jwrite) : list (list jwrite) :=
+  let buckets := fold_left (fun m e => dc_bucket_add (lower_ascii (fst e)) e m) res [] in
+  map (fun surv => filter (fun e => negb (existsb (kv_eqb e) surv)) res ++ surv) (choices (map snd buckets)).
 
 Definition upper_ascii (s : bytes) : bytes := map ascii_upper s.
 
@@ -131,7 +144,7 @@ Definition ok (c : case) : bool :=
                         match o_post_names with Some n => ms_eqb (cm_names (v_args_post t)) n | None => true end
        else true) &&
       bytes_eqb (v_request_body t) o_body && bytes_eqb (v_request_body_length t) o_len &&
-      bytes_eqb (v_rbp t) o_rbp && Bool.eqb (v_reqbody_error t) o_err) (orders res)
+      bytes_eqb (v_rbp t) o_rbp && Bool.eqb (v_reqbody_error t) o_err) (json_orders res)
   end.
 
 Definition mismatches (l : list case) : list nat := mismatches_of ok l.
